@@ -694,3 +694,23 @@ package fpgo
 //@   requires setSelf != nil && input != nil
 //@   ensures empty: len(*setSelf) == 0 || len(*input) == 0 ==> r0 == false
 //@   ensures def: len(*setSelf) > 0 && len(*input) > 0 ==> r0 == forallv(x, has(*input, x) ==> has(*setSelf, x))
+
+// StreamSetForInterfaceDef: the "duplicated zone" delegations; an empty or nil operand gives false / the receiver, exactly like
+// the base set and the generic twin
+//@ func (StreamSetForInterfaceDef).IsSubsetByKey
+//@   prop C05
+//@   requires streamSetSelf != nil
+//@   ensures empty-operand: input == nil || len(SSI(input)) == 0 || len(SSI(streamSetSelf)) == 0 ==> r0 == false
+//@   ensures def: input != nil && len(SSI(input)) > 0 && len(SSI(streamSetSelf)) > 0 ==> r0 == forallv(x, has(SSI(streamSetSelf), x) ==> has(SSI(input), x))
+//@ func (StreamSetForInterfaceDef).IsSupersetByKey
+//@   prop C05
+//@   requires streamSetSelf != nil
+//@   ensures empty-operand: input == nil || len(SSI(input)) == 0 || len(SSI(streamSetSelf)) == 0 ==> r0 == false
+//@   ensures def: input != nil && len(SSI(input)) > 0 && len(SSI(streamSetSelf)) > 0 ==> r0 == forallv(x, has(SSI(input), x) ==> has(SSI(streamSetSelf), x))
+//@ func (StreamSetForInterfaceDef).Minus
+//@   prop C04,C05
+//@   requires streamSetSelf != nil
+//@   ensures nothing-to-remove: input == nil || len(SSI(input)) == 0 ==> r0 == streamSetSelf
+//@   ensures fresh-result: input != nil && len(SSI(input)) > 0 ==> r0 != nil && fresh(r0) && SSI(r0) != nil && fresh(SSI(r0))
+//@   ensures keys: input != nil && len(SSI(input)) > 0 ==> forallv(x, has(SSI(r0), x) == (has(SSI(streamSetSelf), x) && !has(SSI(input), x)))
+//@   ensures values-kept: input != nil && len(SSI(input)) > 0 ==> forallv(x, has(SSI(r0), x) ==> SSI(r0)[x] == SSI(streamSetSelf)[x])
